@@ -397,3 +397,80 @@ func ruleR01f(c *Ctx) {
 		}
 	}
 }
+
+// nonNegByConstruction: the expression cannot be negative whatever the data: a non-negative constant, len(),
+// cap(), a reflect Len()/NumField() result, a variable whose only definition is one of these, or a sum or
+// product of such.
+func nonNegByConstruction(e ast.Expr, scope ast.Node, info *types.Info, depth int) bool {
+	e = ast.Unparen(e)
+	if tv, ok := info.Types[e]; ok && tv.Value != nil {
+		return constant.Sign(tv.Value) >= 0
+	}
+	if depth > 4 {
+		return false
+	}
+	switch x := e.(type) {
+	case *ast.CallExpr:
+		if id, ok := x.Fun.(*ast.Ident); ok && (id.Name == "len" || id.Name == "cap") {
+			if _, isB := info.Uses[id].(*types.Builtin); isB {
+				return true
+			}
+		}
+		if se, ok := x.Fun.(*ast.SelectorExpr); ok && len(x.Args) == 0 && (se.Sel.Name == "Len" || se.Sel.Name == "NumField" || se.Sel.Name == "NumMethod") {
+			return true
+		}
+		// conversion of a non-negative value
+		if tv, ok := info.Types[x.Fun]; ok && tv.IsType() && len(x.Args) == 1 {
+			return nonNegByConstruction(x.Args[0], scope, info, depth+1)
+		}
+	case *ast.BinaryExpr:
+		if x.Op == token.ADD || x.Op == token.MUL {
+			return nonNegByConstruction(x.X, scope, info, depth+1) && nonNegByConstruction(x.Y, scope, info, depth+1)
+		}
+	case *ast.Ident:
+		if r := resolveLocalInit(x, scope, info); r != ast.Expr(x) {
+			return nonNegByConstruction(r, scope, info, depth+1)
+		}
+	}
+	return false
+}
+
+// R01g: no built-in function, directive or renderer step can fail on a size computed from data: every
+// length or capacity handed to make is non-negative by construction or dominated by a test that it is.
+// (A negative size panics; the render then returns an error where the language defines a value, e.g. the
+// empty list for range(5, 2).)
+func ruleR01g(c *Ctx) {
+	p := c.pkg("soyhtml")
+	if p == nil {
+		return
+	}
+	info := p.TypesInfo
+	nr := newNoRet(c)
+	n := 0
+	for _, fd := range c.allFuncDecls("soyhtml") {
+		ord := 0
+		guardWalk(fd.Body, nr.forInfo(info), func(e ast.Expr, facts factSet) {
+			call, ok := e.(*ast.CallExpr)
+			if !ok {
+				return
+			}
+			id, ok := call.Fun.(*ast.Ident)
+			if !ok || id.Name != "make" || len(call.Args) < 2 {
+				return
+			}
+			if _, isB := info.Uses[id].(*types.Builtin); !isB {
+				return
+			}
+			for _, sz := range call.Args[1:] {
+				n++
+				ord++
+				key := fmt.Sprintf("%s make-size#%d", c.declKey("soyhtml", fd), ord)
+				k := exprKey(sz)
+				ok := nonNegByConstruction(sz, fd.Body, info, 0) || facts[k+" >= 0"] || facts[k+" > 0"] || facts["0 <= "+k] || facts["0 < "+k]
+				c.check(ok, "R01g", key, sz.Pos(), "the size "+k+" cannot be negative",
+					"the size "+k+" handed to make is computed from data and nothing shows it is non-negative: for some arguments make panics and the render returns an error where the language defines a value")
+			}
+		})
+	}
+	c.floor("R01g", "sizes handed to make in the renderer", 6, n)
+}
